@@ -1827,7 +1827,9 @@ class t2data(object):
             self.multi['num_inc'] = None
         # Convert LINEQ into corresponding MOP(21) option:
         if self.lineq:
-            if self.lineq['type'] <= 1: solver_type = 4
+            # (a blank solver type gives the default)
+            lineq_type = self.lineq.get('type')
+            if lineq_type is None or lineq_type <= 1: solver_type = 4
             else: solver_type = 5
         else: solver_type = 4
         self.lineq = {}
@@ -1885,8 +1887,8 @@ class t2data(object):
         # set up LINEQ:
         if MP: solver_type = 2
         else:
-            if 'type' in self.solver: solver_type = self.solver['type']
-            else: solver_type = self.parameter['option'][21]
+            solver_type = self.solver.get('type')
+            if solver_type is None: solver_type = self.parameter['option'][21]
         lineq_types = [2, 1, 2, 2, 1, 2, 1]
         if not (0 <= solver_type < len(lineq_types)): solver_type = 0 # default solver
         self.lineq = {'type': lineq_types[solver_type], 'epsilon': None,
